@@ -259,8 +259,9 @@ def write_replay(ctx, tag, files, info):
 def write_evidence(ctx, level, coverage, assumptions, violations):
     ev = dict(property_id=ctx.prop, tier=ctx.tier, seed=ctx.seed, level=level, coverage=coverage,
               assumptions=assumptions, wall_s=round(time.time() - ctx.t0, 1), violations=violations)
-    os.makedirs(os.path.join(VERIF, "evidence"), exist_ok=True)
-    with open(os.path.join(VERIF, "evidence", ctx.prop + ".json"), "w") as f:
+    evdir = os.environ.get("VERIF_EVIDENCE_DIR", os.path.join(VERIF, "evidence"))   # tools/try_mutant.sh keeps its runs out of evidence/
+    os.makedirs(evdir, exist_ok=True)
+    with open(os.path.join(evdir, ctx.prop + ".json"), "w") as f:
         json.dump(ev, f, indent=1)
     return ev
 
